@@ -452,6 +452,7 @@ func (c *FnCtx) havocTarget(st *State, tv TV) {
 	if tv.typ == nil {
 		return
 	}
+	c.assumeRefs(tv.t, tv.typ, st)
 	switch tt := types.Unalias(tv.typ).Underlying().(type) {
 	case *types.Pointer:
 		k, s := c.g.heapKeyFor(tt.Elem())
@@ -553,7 +554,7 @@ func (c *FnCtx) checkFrame(st *State, reach Term, env *Env) {
 				excl = append(excl, not(eq(p, t.ref)))
 			}
 		}
-		if k == nextKey || strings.HasPrefix(k, "GH_") {
+		if k == nextKey || k == ctxDoneKey || strings.HasPrefix(k, "GH_") || strings.HasPrefix(k, "SEEN_") {
 			continue
 		}
 		body := implies(and(append([]Term{gt(p, tZero), lt(p, c.next(c.entry))}, excl...)...), eq(sel(cur, p), sel(old, p)))
